@@ -267,7 +267,7 @@ def other_length_variant(rng, grid, lattice=False, nmax=40):
 def draw_schedule(rng, fspec, pf, n, kind=None):
     """Frac-face pressure schedule of length n (all inside the table, <= p_i)."""
     p_lo, p_i = fspec["_p_lo"], fspec["p_i"]
-    kind = kind or rng.choice(["const", "step_down", "ramp", "random", "rise"])
+    kind = kind or rng.choice(["const", "step_down", "ramp", "random", "rise", "shutin", "shutin", "buildup"])
     if kind == "const":
         v = [float(pf)] * n
     elif kind == "step_down":
@@ -278,6 +278,17 @@ def draw_schedule(rng, fspec, pf, n, kind=None):
         v = list(np.linspace(min(p_i, pf * 1.05 + 1), pf, n))
     elif kind == "random":
         v = [p_lo + rng.random() * (p_i - p_lo) for _ in range(n)]
+    elif kind == "shutin":
+        # drawdown, a shut-in block at exactly the initial pressure, optionally drawdown again
+        a = rng.randrange(0, max(1, n - 1))
+        b = rng.randrange(a, n) + 1
+        v = [float(pf)] * a + [float(p_i)] * (b - a) + [float(pf)] * (n - b)
+    elif kind == "buildup":
+        # frac-face pressure temporarily above the initial pressure (injection / frac hit), inside the table
+        top = min(float(fspec["_p_hi"]), p_i + 0.1 * (p_i - p_lo))
+        a = rng.randrange(0, max(1, n - 1))
+        b = rng.randrange(a, n) + 1
+        v = [float(pf)] * a + [float(top)] * (b - a) + [float(pf)] * (n - b)
     else:
         v = list(np.linspace(pf, min(p_i, pf + 0.3 * (p_i - pf)), n))
     return {"kind": kind, "v": [float(x) for x in v]}
